@@ -427,7 +427,7 @@ def check_property(prop, tier="quick", seed=0):
     if n_ob == 0:
         print("CHECKER-ERROR: zero obligations generated")
         return 3
-    if undecided and not standin_cases:
+    if undecided and not standin_cases and not bounded_evals:
         return 2
     return 0
 
